@@ -479,6 +479,31 @@ fn gen_case(r: &mut Rng) -> Case {
     Case { stereo, vs: r.below(7) as u8, ym: r.bool(), rate, pf, data, chunks }
 }
 
+/// Frames of 65536 samples and more (a slow player frequency at a high sample rate): the frame length
+/// and the position inside the frame do not fit sixteen bits.
+fn gen_big(r: &mut Rng) -> Case {
+    let stereo = r.bool();
+    let (rate, pf) = *r.pick(&[(96000usize, 1u8), (192000, 2), (210000, 3), (65535, 1), (65536, 1), (65537, 1), (131077, 2), (200000, 1), (384000, 5)]);
+    let frames = r.range(1, 3) as usize;
+    let data = gen_data(r, frames);
+    let spf = rate / pf as usize;
+    let total = (data.len() / 14) * spf;
+    let mut chunks = vec![];
+    let mut offered = 0usize;
+    while offered <= total && chunks.len() < 40 {
+        let n = match r.below(4) {
+            0 => r.range(1, 70000) as usize,
+            1 => spf * if stereo { 2 } else { 1 },
+            2 => r.range(60000, 140000) as usize,
+            _ => r.range(0, 300000) as usize,
+        };
+        chunks.push(n);
+        offered += if stereo { n / 2 } else { n };
+    }
+    chunks.push(r.range(1, 64) as usize);
+    Case { stereo, vs: r.below(7) as u8, ym: r.bool(), rate, pf, data, chunks }
+}
+
 /// Greedy shrinking; every candidate is re-run on the real code and re-adjudicated.
 fn shrink(model: &mut Model, c: &Case, key: &str) -> Case {
     let fails = |model: &mut Model, c: &Case| matches!(check_case(model, c, None), Some(d) if d.key == key);
@@ -1017,7 +1042,7 @@ fn report_transpose(model: &mut Model, rep: &mut Report, reg_major: &[u8], d: Di
 }
 
 fn long_vtx(rep: &mut Report, longs: &[usize]) {
-    // long recordings (more than 65536 frames, over 20 minutes at 50 Hz): the Lean model's list transposition is
+    // long recordings (32768 frames = a decoded size of exactly seven 64 KiB blocks, more than 65536 frames = over 20 minutes at 50 Hz): the Lean model's list transposition is
     // quadratic, so here the frame-major order is checked against the spec's index formula directly:
     // frame f, register r  <-  byte r*frames + f of the register-major data
     for &n in longs {
@@ -1026,7 +1051,7 @@ fn long_vtx(rep: &mut Report, longs: &[usize]) {
         let loaded = catch_unwind(AssertUnwindSafe(|| vtx::Vtx::load(std::io::Cursor::new(file))));
         rep.eval();
         rep.class(format!("transpose long frames={}", n));
-        rep.count("transpose_frames", ">65535");
+        rep.count("transpose_frames", if n > 65535 { ">65535" } else { "32767-65535" });
         let bad: Option<String> = match loaded {
             Err(_) => Some("Vtx::load panicked".into()),
             Ok(Err(e)) => Some(format!("Vtx::load rejected the file: {}", e)),
@@ -1063,7 +1088,7 @@ fn long_vtx(rep: &mut Report, longs: &[usize]) {
 pub fn run(o: &Opts) -> Report {
     let mut rep = Report::new("C20");
     rep.rule = "random register logs (0-10 frames, R13 biased to 0xFF / 0xF0-0xFE, sometimes a trailing partial frame) x \
-(rate, player frequency) giving spf 0..900 x mono/stereo x random lists of play() buffer lengths (styles: all 1, 0-3, \
+(rate, player frequency) giving spf 0..900 (and, one case in a hundred, 65535..200000) x mono/stereo x random lists of play() buffer lengths (styles: all 1, 0-3, \
 0-40, small odd, large; two more calls after the end) on vtx::player::Player over a recording AymBackend: every play \
 call's backend call log, returned count and buffer contents are compared with the Lean model and the schedule spec; \
 plus PrecisePlayer (real AymPrecise) one-shot vs chunked streams compared bit for bit and its total against the spec; \
@@ -1108,7 +1133,7 @@ play call with spf>0, non-silent precise stream classes, transposition frame cou
     let mut pending: Option<(Case, Disagreement)> = None;
     for i in 0..logs {
         let mut r = rng.fork();
-        let c = gen_case(&mut r);
+        let c = if i % (if o.thorough() { 1000 } else { 100 }) == 99 { gen_big(&mut r) } else { gen_case(&mut r) };
         let spf = if c.pf == 0 { 0 } else { c.rate / c.pf as usize };
         rep.count("channels", if c.stereo { "stereo" } else { "mono" });
         rep.count("spf", match spf {
@@ -1116,7 +1141,8 @@ play call with spf>0, non-silent precise stream classes, transposition frame cou
             1 => "1",
             2..=9 => "2-9",
             10..=99 => "10-99",
-            _ => ">=100",
+            100..=65534 => "100-65534",
+            _ => ">=65535",
         });
         rep.count("frames", format!("{}", c.data.len() / 14));
         if c.pf == 0 {
@@ -1173,7 +1199,7 @@ play call with spf>0, non-silent precise stream classes, transposition frame cou
             report_transpose(&mut model, &mut rep, &d, x);
         }
     }
-    long_vtx(&mut rep, &if o.thorough() { vec![65535, 65536, 65537, 70001, 100000] } else { vec![65537] });
+    long_vtx(&mut rep, &if o.thorough() { vec![32767, 32768, 32769, 65535, 65536, 65537, 70001, 98304, 100000] } else { vec![32768, 65537] });
     rep.extra.push(("logs".into(), J::I(logs as i64)));
     rep.extra.push(("model_requests".into(), J::I(model.requests as i64)));
     rep
